@@ -10,6 +10,7 @@ DATA = {
     "d+1": B("+", V("d"), I(1)),
     "d*c": B("*", V("d"), V("c")),
     "d-c": B("-", V("d"), V("c")),
+    "k5": I(5),          # a constant written under a run-time enable
 }
 ENABLE = {
     "t>0": B(">", V("t"), I(0)),
@@ -17,6 +18,8 @@ ENABLE = {
     "t>1": B(">", V("t"), I(1)),
     "t>0&&s>0": B("&&", B(">", V("t"), I(0)), B(">", V("s"), I(0))),
     "t+s>0": B(">", B("+", V("t"), V("s")), I(0)),
+    "one": I(1),         # a constant enable: the cell follows the data
+    "2>1": B(">", I(2), I(1)),
 }
 SHARED = {   # enable shares an input with the data
     "d>2": (V("d"), B(">", V("d"), I(2))),
@@ -159,7 +162,7 @@ class C03(core.Check):
     rule = ("explicit-state BFS to closure from the power-on state over events 'set one input to another value of "
             "its domain, hold until settled'; one case = one program (data form x enable form x explicit/inferred "
             "cell type x reader set); state = (all combinator outputs, input valuation, reference cell); every "
-            "transition is executed on the emitted blueprint and compared with the reference cell "
+            "(data and enable forms include a constant datum and constant enables) transition is executed on the emitted blueprint and compared with the reference cell "
             "q := v if c>0 else q at every reader; non-trivial = at least two different observations were reached")
     assumptions = ["circuit model fv/sim.py", "reference cell: q := v if c > 0 else q, initially 0",
                    "raw-signal enables explored for values >= 0 only",
@@ -170,6 +173,8 @@ class C03(core.Check):
         for vn, ve in DATA.items():
             for cn, ce in ENABLE.items():
                 for explicit in (True, False):
+                    if vn == "k5" and cn in ("one", "2>1"):
+                        continue
                     rs = READERS if (tier == "thorough" or (vn in ("d", "d*c") and cn in ("t>0", "t", "t>0&&s>0"))) \
                         else {"arith+cmp": 0, "bare": 0, "mix+arith": 0}
                     for rn in rs:
@@ -198,7 +203,7 @@ class C03(core.Check):
             lang.run(decls, env)
             v = lang.ev(vexpr, env)
             c = lang.ev(cexpr, env)
-            return v, lang.val(c)
+            return lang.Sig(getattr(v, "type", None), lang.val(v)), lang.val(c)
 
         celltype = "signal-M" if case["explicit"] else vc({i: 1 for i in inputs})[0].type
 
